@@ -170,6 +170,78 @@ PROPS["C19"] = _wq("C19", "Profile C19: Stop or Break injected at a random posit
     "Proof with fault injection = quantification over all reachable states: no panic, callers never block, rejected/limbo items never start, accepted work survives Stop, Break skips the waiting work, "
     "the shutdown hand-shake never deadlocks.")
 
+_LOCK_TB = TB_COMMON + [
+    "sync.Mutex / sync.RWMutex / sync.Map / sync/atomic provide their documented atomicity (a critical section is one atomic step of the LTS)",
+    "shape facts: harness/cmd/shapegen (go/ast, ~400 lines) extracts which fields are accessed under which lock mode; TV/ShapeOK/*.lean proves by `decide` that the extracted shape is the one the model assumes",
+    "Go memory-model data races are outside a sequentially consistent LTS: delegated to the shape facts + the race detector",
+]
+PROPS["C07"] = dict(
+    shape=True, extra_modules=["TV.ShapeOK.SafeMap"],
+    components=[dict(name="maps", shrink_lists=False), dict(name="mapsconc", race=True, shrink=False, independent_lines=True)],
+    clause_prefixes=["C07."],
+    rule=("sequential: every method of SafeMap[int,int], SafeMap[int,*int], SafeMap[int,string], SyncMap[int,int], SyncMap[int,error] (stored nils included) on histories of 1-60 (quick) / 1-120 (thorough) ops over 5 keys, "
+          "compared op by op with the ordinary-map specification; snapshots are scribbled on and the map re-read. concurrent (race build): GetOrAdd||Delete loop, every SyncMap method on a stored nil interface, and recorded "
+          "histories of 2-4 goroutines x 2-5 ops on 1-3 keys (stamped from one atomic counter) judged by the Lean linearizability decision procedure (exhaustive over orders compatible with real time). "
+          "distinct_nontrivial = distinct sequential histories + distinct recorded-history configurations."),
+    level_text=("Proof: generic theorem — every history of a lock-protected object whose falling-through sections are silent and whose completing section is the specification is linearizable (any threads, programs, "
+                "interleavings), real-time order respected; SafeMap's section table is Sound; one-winner, miss-is-zero, atomic read-modify-write on the specification; SyncMap's conversion is the identity incl. the nil "
+                "interface. The section table is tied to safeMap.go by regenerated shape facts proved equal by `decide`. Snapshot non-aliasing is carried by the correspondence only."),
+    level_note="Trusted: Lean kernel; sync.Map is linearizable with its documented semantics; the shape extractor; Go boxing modelled by IVal/Any.",
+    trusted_base=_LOCK_TB, assumptions=["values 0..3 stand for the zero value and three distinct non-zero values of each instantiated type", "recorded histories are small so that the exhaustive linearizability search stays cheap"],
+)
+PROPS["C08"] = dict(
+    shape=True, extra_modules=["TV.ShapeOK.Cache"],
+    components=[dict(name="cacheconc", race=True, shrink=False, independent_lines=True),
+                dict(name="cache", gen_args={"C08": ["profile=C01"]}, shrink_lists=False, tiers=["thorough"])],
+    clause_prefixes=["C08.", "C01."],
+    rule=("race-detector stress, each round in its own process: (a) fill — 16 writers insert exactly Capacity() distinct keys into a capacity-64 cache, nothing may be missing; (b) mix — G in {2,4,8,16} goroutines x 50-400 "
+          "Set/Get/Contains/Delete/Len/Keys/Values/Sweep (+ Clear/Resize in half of the rounds) on capacities {1,4,9,64}, sweep frequency 1 ms or 1 h; checked: every Get value was Set for that key, views consistent after "
+          "quiescence + Sweep, single-writer keys hold the writer's last value or are absent, no panic, no hang (30 s watchdog), no race report, the sweeper goroutine is gone within 1 s of cancel. "
+          "distinct_nontrivial = distinct stress configurations."),
+    level_text=("Proof of the lifting theorem: with every exported method one section of the cache-wide RW lock (shape facts regenerated from fifoMapCache.go and proved by `decide`), the concurrent cache is linearizable to the "
+                "sequential model of C01-C03/C13 (instance of C07's generic theorem), hence Get values were Set, views are consistent and Len(sweep) <= Capacity. Partial: data races, deadlock on real mutexes and the "
+                "sweeper goroutine's lifetime are runtime truths — searched for by the -race stress, not proved."),
+    level_note="Trusted as C07 plus the sequential cache model (C01).",
+    trusted_base=_LOCK_TB, assumptions=["stress schedules are not seeded (Go scheduler)", "goroutine lifetime (cancel ends the sweeper) is observed via runtime.Stack within 1 s"],
+)
+PROPS["C11"]["shape"] = True
+PROPS["C11"]["extra_modules"] = ["TV.Properties.C11c", "TV.ShapeOK.Stack"]
+PROPS["C14"]["shape"] = True
+PROPS["C14"]["extra_modules"] = ["TV.ShapeOK.Queue"]
+
+_PUB_TB = TB_COMMON + [
+    "the LTS's atomic steps = channel operations / lock operations of publication.go (hand transcription); sync.RWMutex writer preference, sync.Once, sync.Map iteration as documented",
+    "real time: a logical clock; the scripts' short timeout is 500 ms, a `sleep` stimulus lasts 1.2 s, a script segment that runs longer than 300 ms without a sleep is discarded as timing-unstable (counted in the evidence)",
+    "quiescence detected black-box from runtime.Stack wait states",
+]
+
+
+def _pub(pid, note, level_text):
+    return dict(
+        components=[dict(name="pub", gen_args={pid: ["profile=" + pid]}, shrink_lists=False),
+                    dict(name="pubstress", race=True, shrink=False, independent_lines=True)],
+        clause_prefixes=[pid + "."],
+        rule=("gated scripts of 3-12 (quick) / 3-16 (thorough) stimuli (subscribe with buffer 0-3, filter none/even/odd/never, timeout short/long, callbacks; publish; receive; close subscriber; close publication, also twice; "
+              "sleep past the short timeout) on <= 4 subscribers, each case in its own process; after every stimulus buffer lengths, values received, callbacks and the number of pending delivery goroutines must equal those of "
+              "one of the model's quiescent successors. " + note + " Plus ungated race-detector stress: 1-4 publishers x 1-5 subscribers x 10-120 unique messages with closers racing. "
+              "distinct_nontrivial = distinct scripts (hashed) with a pending delivery or a close + distinct stress configurations."),
+        level_text=level_text,
+        level_note="Trusted: Lean kernel; the hand-written LTS of publication.go; correspondence at quiescent granularity; real timers and goroutine exit are observed, not proved.",
+        trusted_base=_PUB_TB, assumptions=["messages are unique within a script so that duplicates are visible", "timing-unstable cases are discarded, never counted as failures or as coverage"],
+    )
+
+
+PROPS["C06"] = _pub("C06", "Profile C06: mostly long timeouts, mixed filters.",
+    "Proof over the LTS (any number of subscribers, messages, publishers, every interleaving): at most one outcome per (publish, subscriber), only published-and-accepted values through a delivery addressed to that subscriber, "
+    "buffers hold sent messages, Publish visits every registered subscriber, a holding delivery with room can be sent. Partial: 'exactly once if the subscriber keeps receiving within its timeout' depends on the scheduler/timer race, "
+    "which the model cannot exhibit (the model proves the converse: timed out only at/after the own deadline).")
+PROPS["C10"] = _pub("C10", "Profile C10: Subscriber.Close / Publication.Close injected at every kind of position (pending deliveries, full buffers, repeated, both).",
+    "Proof with fault injection = quantification over all reachable states: no panic (no send on a closed channel, no double close), closed exactly once, a begun close can always complete, buffered messages stay readable, "
+    "no holder after the close, other subscribers untouched.")
+PROPS["C15"] = _pub("C15", "Profile C15: half of the subscribers with the short timeout and callbacks; every script sleeps past it once.",
+    "Proof: Publish is one non-waiting step; buffers never exceed capacity; every internal step on a delivery records exactly one outcome; the timer is the subscriber's own and fires only at/after the deadline; callbacks ledger in bijection "
+    "with filtered/timed-out outcomes; at quiescence whatever is pending is legitimately waiting. Partial for real time (timers, goroutine exit are observed with margins).")
+
 HOOK_COMMITS = []
 
 _ALL = ["C%02d" % i for i in range(1, 21)]
